@@ -954,6 +954,15 @@ def _find_iters(env):
     return out
 
 
+def _has_concrete_iter(env):
+    e = env
+    while e is not None:
+        if any(isinstance(v, V.ConcreteIter) for v in e.vars.values()):
+            return True
+        e = e.parent
+    return False
+
+
 def exec_count_loop(engine, ctx, st, env):
     """`for i in itertools.count(): body` with a sidecar invariant.  The loop is left by break / return / raise only.
        Loop-carried state: the local names assigned in the body and the position of every string iterator in scope."""
@@ -963,6 +972,17 @@ def exec_count_loop(engine, ctx, st, env):
 
     qual = env.finfo.qualname if env.finfo is not None else ""
     k = loops.loop_ordinal(env, st)
+    if not _find_iters(env) and _has_concrete_iter(env):
+        # every iterator in scope is over a concrete string: the loop is simply executed (bounded by the input's length)
+        for n in range(4096):
+            engine.assign(ctx, st.target, n, env)
+            try:
+                engine.exec_block(ctx, st.body, env)
+            except ContinueSig:
+                continue
+            except BreakSig:
+                return
+        raise EngineLimit("loop over itertools.count() did not end on a concrete input")
     inv = engine.reg.loops.get((qual, k))
     if inv is None:
         raise EngineLimit("loop over itertools.count() without an invariant")
@@ -1077,15 +1097,45 @@ INT_VALUE = _uf("int_literal_value", z3.StringSort(), z3.IntSort(), z3.IntSort()
 FRAC_OK = _uf("fraction_literal_ok", z3.StringSort(), z3.BoolSort())
 FRAC_VALUE = _uf("fraction_literal_value", z3.StringSort(), z3.RealSort())
 
+DIGITS = _uf("digits_value", z3.StringSort(), z3.IntSort(), z3.IntSort())
+ASSUMED.update({
+    "int(str, base) value": "int(s, base) ignores single underscores between digits (PEP 515): its value is that of the text "
+                            "c = s.replace('_', ''); base 0 reads the prefix of c: 0x/0X -> 16, 0o/0O -> 8, 0b/0B -> 2, none -> "
+                            "10; the value is digits_value(digits of c after the prefix, base) - positional notation, "
+                            "uninterpreted; ValueError unless int_literal_ok(c, base)",
+})
+
+
+def clean_underscores(t):
+    """t.replace('_', '') as a term; idempotent by construction"""
+    if z3.is_app(t) and t.decl().name() == "strrepl" and z3.is_string_value(t.arg(1)) and t.arg(1).as_string() == "_" \
+            and z3.is_string_value(t.arg(2)) and t.arg(2).as_string() == "":
+        return t
+    return STRREPL(t, z3.StringVal("_"), z3.StringVal(""))
+
+
+def int_literal_value(c, base):
+    """value of the cleaned literal text c read with int(c, base), base in (0, 10)"""
+    if base == 10:
+        return DIGITS(c, z3.IntVal(10))
+    p = z3.SubString(c, 0, 2)
+    body = z3.SubString(c, 2, z3.Length(c) - 2)
+    is_p = lambda a, b: z3.Or(p == z3.StringVal(a), p == z3.StringVal(b))
+    return z3.If(is_p("0x", "0X"), DIGITS(body, z3.IntVal(16)),
+                 z3.If(is_p("0o", "0O"), DIGITS(body, z3.IntVal(8)),
+                       z3.If(is_p("0b", "0B"), DIGITS(body, z3.IntVal(2)), DIGITS(c, z3.IntVal(10)))))
+
+
 _orig_bi_int3 = Lib.bi_int
 
 
 def bi_int3(self, ctx, x=0, base=None):
     if isinstance(x, z3.ExprRef) and z3.is_string(x) and base in (None, 0, 10):
-        b = z3.IntVal(10 if base is None else base)
-        if ctx.decide(z3.Not(INT_OK(x, b))):
+        b = 10 if base is None else base
+        c = clean_underscores(x)
+        if ctx.decide(z3.Not(INT_OK(c, z3.IntVal(b)))):
             raise self.raise_ext("ValueError", "int(): invalid literal")
-        return INT_VALUE(x, b)
+        return int_literal_value(c, b)
     return _orig_bi_int3(self, ctx, x, base)
 
 
@@ -1096,9 +1146,10 @@ _orig_Fraction3 = Lib.bi_fractions_Fraction
 
 def bi_fractions_Fraction3(self, ctx, num=0, den=None):
     if isinstance(num, z3.ExprRef) and z3.is_string(num) and den is None:
-        if ctx.decide(z3.Not(FRAC_OK(num))):
+        c = clean_underscores(num)  # Fraction(str) accepts the same digit separators
+        if ctx.decide(z3.Not(FRAC_OK(c))):
             raise self.raise_ext("ValueError", "Fraction(): invalid literal")
-        return V.FractionV(FRAC_VALUE(num))
+        return V.FractionV(FRAC_VALUE(c))
     return _orig_Fraction3(self, ctx, num, den)
 
 
@@ -1569,3 +1620,80 @@ def fold_term(ctx, seq: SymSeq, first: Obj, n, named: bool):
         ctx.add_axiom(z3.ForAll([i], body))
     ctx.add_axiom(F(seq.arr, first.ref, z3.IntVal(0)) == first.ref)
     return F(seq.arr, first.ref, n)
+
+
+# ---------------------------------------------------------------------------------------------------- concrete evaluation
+_orig_call_method = Lib.call_method
+
+
+def call_method(self, ctx, o, name, args, kwargs):
+    """Methods of a *concrete* str with concrete arguments are evaluated by the running CPython."""
+    if isinstance(o, str) and not kwargs and all(isinstance(a, (str, int)) and not isinstance(a, bool) for a in args) \
+            and getattr(self, "m_str_" + name, None) is None and hasattr(str, name) and not name.startswith("_"):
+        try:
+            r = getattr(o, name)(*args)
+        except (ValueError, TypeError, IndexError) as ex:
+            raise self.raise_ext(type(ex).__name__, "str.%s" % name)
+        if isinstance(r, list):
+            return PyList(r)
+        if isinstance(r, (str, int, bool, tuple)):
+            return r
+        raise EngineLimit("result of str.%s" % name)
+    return _orig_call_method(self, ctx, o, name, args, kwargs)
+
+
+Lib.call_method = call_method
+
+_orig_binop2 = Lib.binop
+
+
+def _concrete_fraction(v):
+    import fractions
+
+    if isinstance(v, V.FractionV):
+        t = z3.simplify(v.term)
+        if z3.is_rational_value(t):
+            return fractions.Fraction(t.numerator_as_long(), t.denominator_as_long())
+    return None
+
+
+def binop2(self, ctx, op, a, b):
+    # int ** negative int is a float in Python
+    if isinstance(op, ast.Pow) and isinstance(a, int) and isinstance(b, int) and not isinstance(a, bool) \
+            and not isinstance(b, bool) and b < 0 and a != 0 and abs(b) <= 400:
+        return V.FloatV(float(a) ** b)
+    # Fraction (concrete) with float: the result is a float
+    for x, y, swap in ((a, b, False), (b, a, True)):
+        fx = _concrete_fraction(x)
+        if fx is not None and isinstance(y, V.FloatV) and isinstance(op, (ast.Add, ast.Sub, ast.Mult, ast.Div)):
+            l, r = (y.value, float(fx)) if swap else (float(fx), y.value)
+            try:
+                return V.FloatV(self.py_arith(op, l, r))
+            except ZeroDivisionError:
+                raise self.raise_ext("ZeroDivisionError")
+    return _orig_binop2(self, ctx, op, a, b)
+
+
+Lib.binop = binop2
+
+
+# ---------------------------------------------------------------------------------------------------- `a or b` as a value
+_orig_ex_BoolOp = Engine.ex_BoolOp
+
+
+def ex_BoolOp(self, ctx, e, env):
+    """`x or default` / `x and y` yield one of the operands, not a truth value, when the operands are not booleans."""
+    if all(symexec._pure_simple(v) for v in e.values):
+        vals = [self.eval(ctx, v, env) for v in e.values]
+        if any(not isinstance(v, (bool, z3.BoolRef)) for v in vals):
+            is_and = isinstance(e.op, ast.And)
+            for i, v in enumerate(vals):
+                if i == len(vals) - 1:
+                    return v
+                t = ctx.decide(self.truth(ctx, v))
+                if (is_and and not t) or (not is_and and t):
+                    return v
+    return _orig_ex_BoolOp(self, ctx, e, env)
+
+
+Engine.ex_BoolOp = ex_BoolOp
